@@ -239,70 +239,117 @@ func c14Oracle(src, out string) []Fail {
 
 // ---------------------------------------------------------------------------------------------
 
+// c14Run runs ONE long-lived transform instance over the field values of the case, in order (kind 0:
+// one value, kind 1: a sequence of records, repeats included).  All records are kept until the end and
+// their fields are read again after the last call, so state carried from one call to the next (a
+// reused buffer, a cached result) shows.
 func c14Run(c *Case) (out string, fails []Fail) {
 	env := c14Setup()
-	src := string(c.S[0])
-	record := env.schema.NewTestRecord1(base.LogFields{"app1", src})
-	record.RawLength = 55
-	cnt0, len0 := env.lookup("redacted")
-	var first, n int
-	var hookOut, pureOut string
-	panicked := func() (p bool) {
-		defer func() {
-			if r := recover(); r != nil {
-				p = true
-			}
+	type rec struct {
+		src, value string
+		record     *base.LogRecord
+		counted    int
+	}
+	recs := make([]*rec, len(c.S))
+	for i, b := range c.S {
+		src := string(b)
+		rc := &rec{src: src, record: env.schema.NewTestRecord1(base.LogFields{"app1", src})}
+		rc.record.RawLength = 55 + i
+		cnt0, len0 := env.lookup("redacted")
+		panicked := func() (p bool) {
+			defer func() {
+				if r := recover(); r != nil {
+					p = true
+				}
+			}()
+			env.tf.Transform(rc.record)
+			return false
 		}()
-		env.tf.Transform(record)
-		first = tredactemail.VerifRedactEmailFindFirst(src)
-		hookOut = src
-		if first != -1 {
-			hookOut, n = tredactemail.VerifRedactEmail1(src, first)
+		if panicked {
+			return "panic", []Fail{{"c14:panic", fmt.Sprintf("redactEmail transform panics on %q", src)}}
 		}
-		pureOut = tredactemail.VerifRedactEmail(src)
-		return false
-	}()
-	if panicked {
-		return "panic", []Fail{{"c14:panic", fmt.Sprintf("redactEmail panics on %q", src)}}
-	}
-	cnt1, len1 := env.lookup("redacted")
-	value := record.Fields[1]
-	counted := 0
-	if cnt1 != cnt0 {
-		counted = 1
-	}
-	switch {
-	case len(src) == 0:
-		out = "skip"
-	case first == -1:
-		out = fmt.Sprintf("none:%d", counted)
-	case n == 0:
-		out = fmt.Sprintf("kept:%d,%d", first, counted)
-	default:
-		k := fmt.Sprint(n)
-		if n >= 4 {
-			k = "4p"
+		cnt1, len1 := env.lookup("redacted")
+		rc.value = strings.Clone(rc.record.Fields[1])
+		if cnt1 != cnt0 {
+			rc.counted = 1
 		}
-		out = fmt.Sprintf("red%s:%d,%d,%d:%s", k, first, n, counted, hex.EncodeToString([]byte(value)))
+		if rc.record.Fields[0] != "app1" {
+			fails = append(fails, Fail{"c14:other-field", fmt.Sprintf("%q: the other field became %q", src, rc.record.Fields[0])})
+		}
+		// 'redacted' counter: advanced once, by the record length, exactly when the field was changed
+		counterOK := cnt1 == cnt0 && len1 == len0
+		if rc.value != src {
+			counterOK = cnt1 == cnt0+1 && len1 == len0+int64(55+i)
+		}
+		if !counterOK {
+			fails = append(fails, Fail{"c14:counter", fmt.Sprintf("%q -> %q: counter moved by %d records / %d bytes", src, rc.value, cnt1-cnt0, len1-len0)})
+		}
+		recs[i] = rc
 	}
-	// the transform, the pure function and the two-step call must agree
-	if value != pureOut || pureOut != hookOut {
-		fails = append(fails, Fail{"c14:transform-differs", fmt.Sprintf("%q: field %q, redactEmail %q, redactEmail1 %q", src, value, pureOut, hookOut)})
-		out = "inconsistent:" + out
+	outs := make([]string, len(recs))
+	for i, rc := range recs {
+		src := rc.src
+		if now := rc.record.Fields[1]; now != rc.value {
+			fails = append(fails, Fail{"c14:field-changed-later", fmt.Sprintf("record %d of the sequence: field was %q after its transform, %q after later records", i, rc.value, now)})
+		}
+		var first, n int
+		var hookOut, pureOut string
+		panicked := func() (p bool) {
+			defer func() {
+				if r := recover(); r != nil {
+					p = true
+				}
+			}()
+			first = tredactemail.VerifRedactEmailFindFirst(src)
+			hookOut = src
+			if first != -1 {
+				hookOut, n = tredactemail.VerifRedactEmail1(src, first)
+			}
+			pureOut = tredactemail.VerifRedactEmail(src)
+			return false
+		}()
+		if panicked {
+			return "panic", []Fail{{"c14:panic", fmt.Sprintf("redactEmail panics on %q", src)}}
+		}
+		var o string
+		switch {
+		case len(src) == 0:
+			o = "skip"
+		case first == -1:
+			o = fmt.Sprintf("none:%d", rc.counted)
+		case n == 0:
+			o = fmt.Sprintf("kept:%d,%d", first, rc.counted)
+		default:
+			k := fmt.Sprint(n)
+			if n >= 4 {
+				k = "4p"
+			}
+			o = fmt.Sprintf("red%s:%d,%d,%d:%s", k, first, n, rc.counted, hex.EncodeToString([]byte(rc.value)))
+		}
+		// the transform, the pure function and the two-step call must agree
+		if rc.value != pureOut || pureOut != hookOut {
+			fails = append(fails, Fail{"c14:transform-differs", fmt.Sprintf("%q: field %q, redactEmail %q, redactEmail1 %q", src, rc.value, pureOut, hookOut)})
+			o = "inconsistent:" + o
+		}
+		if (n > 0) != (hookOut != src) {
+			fails = append(fails, Fail{"c14:count", fmt.Sprintf("%q: %d redactions reported but result %q", src, n, hookOut)})
+		}
+		fails = append(fails, c14Oracle(src, rc.value)...)
+		// the counter against the reference recogniser
+		occ := c14Occurrences(src)
+		must := false
+		for _, oc := range occ {
+			must = must || oc.must
+		}
+		if (must && rc.counted == 0) || (len(occ) == 0 && rc.counted == 1) {
+			fails = append(fails, Fail{"c14:counter-vs-addresses", fmt.Sprintf("%q: %d address occurrences, counter advanced: %d", src, len(occ), rc.counted)})
+		}
+		outs[i] = o
 	}
-	if (n > 0) != (value != src) {
-		fails = append(fails, Fail{"c14:count", fmt.Sprintf("%q: %d redactions reported but field %q", src, n, value)})
+	if c.Kind == 1 {
+		return "seq:" + strings.Join(outs, ";"), fails
 	}
-	// 'redacted' counter: advanced once by the record length exactly when the field was changed
-	counterOK := cnt1 == cnt0 && len1 == len0
-	if value != src {
-		counterOK = cnt1 == cnt0+1 && len1 == len0+55
-	}
-	if !counterOK {
-		fails = append(fails, Fail{"c14:counter", fmt.Sprintf("%q -> %q: counter moved by %d records / %d bytes", src, value, cnt1-cnt0, len1-len0)})
-	}
-	fails = append(fails, c14Oracle(src, value)...)
-	return out, fails
+	return outs[0], fails
 }
 
 // ---------------------------------------------------------------------------------------------
@@ -414,6 +461,30 @@ func c14Text(r *Rng, nAddr int) string {
 	return sb.String()
 }
 
+// c14Sized returns an address of exactly total bytes (total >= 3): local@domain with a random split,
+// the domain with one dot, or - when trunc - without a dot or ending in the dot (valid at the end of a text only).
+func c14Sized(r *Rng, total int, trunc bool) string {
+	letters := []byte("abcxyzJQ019")
+	l := r.Range(1, total-2)
+	d := total - 1 - l
+	local := r.Bytes(l, letters)
+	if l > 2 && r.Chance(1, 3) {
+		local[r.Range(1, l-2)] = "._-"[r.Intn(3)]
+	}
+	dom := r.Bytes(d, []byte("abcxyzJQ"))
+	if r.Chance(1, 4) {
+		dom[r.Intn(d)] = "0123456789"[r.Intn(10)]
+	}
+	switch {
+	case trunc && d >= 2 && r.Bool():
+		dom[d-1] = '.'
+	case trunc:
+	case d >= 3:
+		dom[r.Range(1, d-2)] = '.'
+	}
+	return string(local) + "@" + string(dom)
+}
+
 func c14Gen(g *Gen) {
 	r := g.R
 	one := func(cls, v string) {
@@ -495,6 +566,71 @@ func c14Gen(g *Gen) {
 			}
 			one("mutated", string(w))
 		}
+	}
+	// redacted spans whose lengths add up to the length of the marker(s): one address of 8 bytes (and 6..10),
+	// pairs adding up to 16, triples to 24 - alone, in filler, back to back, truncated at the end of the text
+	for i := 0; i < g.Pick(6000, 100000); i++ {
+		var sb strings.Builder
+		pre := r.PickStr([]string{"", "", " ", "x ", "user=", "to: ", "<", "é", ","})
+		sep := r.PickStr([]string{" ", ",", ";", "", " and ", "é", "> <"})
+		post := r.PickStr([]string{"", "", " ", " y", ",", ">", "é", ";ok"})
+		k := r.PickInt([]int{1, 1, 1, 2, 2, 3})
+		rest := 8 * k
+		if r.Chance(1, 4) {
+			rest += r.Range(-2, 2)
+		}
+		sb.WriteString(pre)
+		for j := 0; j < k; j++ {
+			n := rest
+			if j < k-1 {
+				n = r.Range(5, 11)
+				if n > rest-5*(k-1-j) {
+					n = rest - 5*(k-1-j)
+				}
+			}
+			if n < 4 {
+				n = 4
+			}
+			rest -= n
+			last := j == k-1
+			trunc := last && post == "" && r.Chance(1, 3)
+			sb.WriteString(c14Sized(r, n, trunc))
+			if !last {
+				sb.WriteString(sep)
+			}
+		}
+		sb.WriteString(post)
+		one(fmt.Sprintf("marker-length-%d", k), sb.String())
+	}
+	// the '@' near the end of the text: every tail length 0..6 after the '@', with and without an earlier candidate
+	for i := 0; i < g.Pick(1500, 30000); i++ {
+		pre := r.PickStr([]string{"", "", "user=", "x ", "a@b.c ", "a@ ", "/", "é", "1@2 "})
+		tail := r.PickStr([]string{"", "g", "b.", "go", "g.c", "goo", "g.co", "go.c", "goog", "g.com", "googl", "g1", "1", "12", "1.", "1a", "1.a"})
+		one("at-near-end", pre+c14Local(r)+"@"+tail)
+	}
+	// sequences of records through the one transform instance: repeats, equal lengths, redacted and untouched mixed
+	for i := 0; i < g.Pick(2500, 50000); i++ {
+		k := r.Range(2, 6)
+		pool := make([]string, 0, 3)
+		for j := 0; j < 3; j++ {
+			switch r.Intn(4) {
+			case 0:
+				pool = append(pool, r.PickStr(c14Fillers))
+			case 1:
+				pool = append(pool, c14Sized(r, r.Range(6, 10), false))
+			default:
+				pool = append(pool, c14Text(r, r.Range(0, 2)))
+			}
+		}
+		seq := make([][]byte, k)
+		for j := range seq {
+			seq[j] = []byte(pool[r.Intn(len(pool))])
+			if j > 0 && r.Chance(1, 4) {
+				seq[j] = seq[j-1]
+			}
+		}
+		g.Count("sequence")
+		g.Case(1, seq, nil)
 	}
 	// dense random strings over the address alphabet and over all bytes
 	for i := 0; i < g.Pick(6000, 120000); i++ {
